@@ -151,7 +151,7 @@ func c34PartWcwidth(c *vk.Ctx) {
 			}
 			l.Case(cls)
 		}
-		if len(idx) == n && idx[0] == 1 && idx[1] == 2 && idx[n-1] == 5 {
+		if len(idx) == 5 && idx[0] == 1 && idx[1] == 2 && idx[2] == 3 && idx[3] == 4 && idx[4] == 5 {
 			c.Sample(s)
 		}
 	})
@@ -317,6 +317,9 @@ type c34Found struct {
 
 func c34Run[S any](c *vk.Ctx, f c34Family[S]) {
 	c.Set("specs_"+f.name, len(f.specs))
+	if len(f.specs) > 0 {
+		c.Sample(f.desc(f.specs[len(f.specs)*2/3]))
+	}
 	var mu sync.Mutex
 	found := map[string]c34Found{}
 	c.Parallel(len(f.specs), func(l *vk.Local, i int) {
